@@ -96,7 +96,7 @@ typedef struct {
 static fsys S;
 static int n_open(void) { return (S.it[0] != NULL) + (S.it[1] != NULL); }
 
-enum { OP_SET0 = 0, OP_TICK1 = 10, OP_TICK3, OP_RELOAD = 20, OP_RELOAD_NOW = 30, OP_OPEN = 40, OP_STEP = 50, OP_CLOSE = 60, OP_OBSERVE = 70, OP_DESTROY_A = 80 };
+enum { OP_SET0 = 0, OP_TICK1 = 10, OP_TICK3, OP_TICK1Z, OP_TICK3Z, OP_RELOAD = 20, OP_RELOAD_NOW = 30, OP_OPEN = 40, OP_STEP = 50, OP_CLOSE = 60, OP_OBSERVE = 70, OP_DESTROY_A = 80 };
 
 static struct mtbl_fileset_options *mkopt(uint32_t iv, int filt) {
 	struct mtbl_fileset_options *o = mtbl_fileset_options_init();
@@ -202,6 +202,9 @@ static bool fs_step(void *ctx, int op) {
 	if (op < 10) { world_set(op); if (S.nhist < MAXH) S.hist[S.nhist++] = op; return true; }
 	if (op == OP_TICK1) { clk_sec += 1; return true; }
 	if (op == OP_TICK3) { clk_sec += 3; return true; }
+	/* same steps, but the nanosecond part of the clock restarts below that of every earlier reading (sub-second borrow in elapsed-time arithmetic) */
+	if (op == OP_TICK1Z) { clk_sec += 1; clk_nsec = 0; return true; }
+	if (op == OP_TICK3Z) { clk_sec += 3; clk_nsec = 0; return true; }
 	if (op == OP_DESTROY_A) { mtbl_fileset_destroy(&S.fs[0]); S.alive[0] = false; return true; }
 	struct mtbl_fileset *f = S.fs[h];
 	switch (kind) {
@@ -252,7 +255,7 @@ static int fs_alphabet(void *ctx, int *ops, int max) {
 	(void) ctx; (void) max; int n = 0;
 	int curv = S.hist[S.nhist - 1];
 	if (S.nhist < MAXH - 1) for (int v = 0; v < NVER; v++) if (v != curv) ops[n++] = v;
-	ops[n++] = OP_TICK1; ops[n++] = OP_TICK3;
+	ops[n++] = OP_TICK1; ops[n++] = OP_TICK3; ops[n++] = OP_TICK1Z; ops[n++] = OP_TICK3Z;
 	for (int h = 0; h < 2; h++) if (S.alive[h]) {
 		ops[n++] = OP_RELOAD + h; ops[n++] = OP_RELOAD_NOW + h; ops[n++] = OP_OBSERVE + h;
 		if (!S.it[h]) ops[n++] = OP_OPEN + h; else { if (!S.it_failed[h]) ops[n++] = OP_STEP + h; ops[n++] = OP_CLOSE + h; }
@@ -276,6 +279,7 @@ static uint64_t fs_canon(void *ctx) {
 	if (sh) {
 		h = vh_mix(h, sh->n_iters * 4 + sh->reload_needed * 2 + 1);
 		int64_t a2 = clk_sec - sh->fs_last.tv_sec; if (a2 > 4) a2 = 4; if (sh->fs_last.tv_sec == 0) a2 = 9; h = vh_mix(h, a2);
+		h = vh_mix(h, clk_nsec < sh->fs_last.tv_nsec);
 		struct my_fileset *m = sh->my_fs;
 		h = vh_mix(h, m->last_mtime ? (uint64_t) (g_setserial - (m->last_mtime - 1000000) / 10) : 99);     /* how many setfile versions behind */
 		for (size_t i = 0; i < entry_vec_size(m->entries); i++) { struct fileset_entry *e = entry_vec_value(m->entries, i); const char *b = strrchr(e->fname, '/'); h = vh_hash(b ? b : e->fname, strlen(b ? b : e->fname), h); h = vh_mix(h, e->ptr != NULL); }
@@ -295,7 +299,7 @@ static const char *fs_explain(void *ctx, const int *ops, int nops) {
 	for (int i = 0; i < nops && o < 1100; i++) {
 		int op = ops[i], h = op % 10;
 		if (op < 10) { static const char *vn[] = { "{f1}", "{f1,f2}", "{f2,f3}", "{f3,missing,junk}", "{/abs/f1,f2}" }; o += snprintf(b + o, sizeof b - o, " set%s", vn[op]); }
-		else if (op == OP_TICK1) o += snprintf(b + o, sizeof b - o, " tick(1s)"); else if (op == OP_TICK3) o += snprintf(b + o, sizeof b - o, " tick(3s)");
+		else if (op == OP_TICK1) o += snprintf(b + o, sizeof b - o, " tick(1s)"); else if (op == OP_TICK3) o += snprintf(b + o, sizeof b - o, " tick(3s)"); else if (op == OP_TICK1Z) o += snprintf(b + o, sizeof b - o, " tick(1s,nsec:=0)"); else if (op == OP_TICK3Z) o += snprintf(b + o, sizeof b - o, " tick(3s,nsec:=0)");
 		else if (op == OP_DESTROY_A) o += snprintf(b + o, sizeof b - o, " destroy(A)");
 		else { static const char *kn[] = { "", "", "reload", "reload_now", "open", "step", "close", "observe" }; o += snprintf(b + o, sizeof b - o, " %s(%c)", kn[op / 10], 'A' + h); }
 	}
